@@ -235,9 +235,30 @@ fn c18_expression() -> R {
             ensure!(objs.iter().any(|o| dg(o) == dg(&values(*vi))), "parameter value not retrievable", "{}", ps[*pi].0);
         }
     }
+    // accessor forms agree with the parameters that were put in
+    op("object_for_parameter / extract_object_for_parameter / with_optional_parameter");
+    for (pi, vi) in &used {
+        let same_param: Vec<&(usize, usize)> = used.iter().filter(|(q, _)| dg(&Envelope::new(ps[*q].1.clone())) == dg(&Envelope::new(ps[*pi].1.clone()))).collect();
+        let distinct_vals: std::collections::HashSet<D> = same_param.iter().map(|(_, v)| dg(&values(*v))).collect();
+        let r = x.object_for_parameter(ps[*pi].1.clone());
+        if distinct_vals.len() == 1 { ensure!(r.as_ref().map(dg).ok() == Some(dg(&values(*vi))), "object_for_parameter does not return the parameter's value", "{}", ps[*pi].0); }
+        else { ensure!(r.is_err(), "object_for_parameter with several values for one parameter must be an error", "{}", ps[*pi].0); }
+        ensure!(x.objects_for_parameter(ps[*pi].1.clone()).len() == distinct_vals.len(), "objects_for_parameter returns another number of values", "{}", ps[*pi].0);
+        if *vi == 1 && distinct_vals.len() == 1 { ensure!(x.extract_object_for_parameter::<String>(ps[*pi].1.clone()).ok() == Some(leaf_text(77)), "extract_object_for_parameter returned another value", ""); }
+    }
+    ensure!(x.object_for_parameter(Parameter::new_named("never-used")).is_err(), "object_for_parameter for an absent parameter returned a value", "");
+    ensure!(matches!(x.extract_optional_object_for_parameter::<String>(Parameter::new_named("never-used")), Ok(None)), "extract_optional_object_for_parameter for an absent parameter must be Ok(None)", "");
+    {
+        let with_some: Envelope = x.clone().with_optional_parameter(Parameter::new_named("opt"), Some(5u8)).into();
+        let with_plain: Envelope = x.clone().with_parameter(Parameter::new_named("opt"), 5u8).into();
+        ensure!(bytes(&with_some) == bytes(&with_plain), "with_optional_parameter(Some) differs from with_parameter", "");
+        let with_none: Envelope = x.clone().with_optional_parameter(Parameter::new_named("opt"), None::<u8>).into();
+        ensure!(bytes(&with_none) == bytes(&env), "with_optional_parameter(None) changed the expression", "");
+    }
     // expected-function check: accepted exactly for an equal function
     op("Expression::try_from((envelope, Some(function)))");
-    let fj = choice(fs.len());
+    // (every expected function against expressions with <=1 parameter; the same function and one other beyond)
+    let fj = if np <= 1 { choice(fs.len()) } else { [fi, (fi + 3) % fs.len()][choice(2)] };
     let r = Expression::try_from((env.clone(), Some(&fs[fj].1)));
     let same = Envelope::new(fs[fj].1.clone()).digest() == Envelope::new(fs[fi].1.clone()).digest();
     ensure!(r.is_ok() == same, "expected-function check wrong", "have {} expect {}: {}", fs[fi].0, fs[fj].0, r.is_ok());
@@ -255,7 +276,7 @@ fn c18_request() -> R {
     let note = ["", "a note", " ", "\t\n"][choice(4)];
     let di = choice(4);
     let mut rq = Request::new_with_body(body.clone(), arid(1));
-    if !note.is_empty() || flag() { rq = rq.with_note(note); }
+    if !note.is_empty() || di == 0 { rq = rq.with_note(note); }
     if let Some(d) = dates(di) { rq = rq.with_date(&d); }
     rt::note(format!("request function {} note {:?} date {}", fs[fi].0, note, di));
     op("Request -> Envelope");
@@ -325,6 +346,20 @@ fn c18_response() -> R {
         else { ensure!(dg(must!(back.error(), "no error")) == dg(must!(rs.error(), "no error")), "parsed error differs", ""); }
         let e2: Envelope = back.into();
         ensure!(bytes(&e2) == bytes(&env), "re-encoded response differs", "{}", label);
+    }
+    op("Response accessors");
+    {
+        ensure!(rs.is_ok() != rs.is_err() && rs.ok().is_some() == rs.is_ok() && rs.err().is_some() == rs.is_err(), "is_ok / is_err / ok / err disagree", "");
+        ensure!(rs.result().is_ok() == rs.is_ok() && rs.error().is_ok() == rs.is_err(), "result() / error() available on the wrong variant", "");
+        if (variant == 1 || variant == 3 || variant == 5) && vi == 1 {
+            let got = if rs.is_ok() { rs.extract_result::<String>() } else { rs.extract_error::<String>() };
+            ensure!(got.ok() == Some(leaf_text(77)), "extract_result / extract_error returned another value", "{}", label);
+            ensure!(if rs.is_ok() { rs.extract_error::<String>().is_err() } else { rs.extract_result::<String>().is_err() }, "extract on the wrong variant returned a value", "");
+        }
+        ensure!((variant == 4 || variant == 5) == rs.id().is_none(), "id() wrong", "{}", label);
+        let oe: Envelope = Response::new_failure(arid(2)).with_optional_error(None::<Envelope>).into();
+        let pe: Envelope = Response::new_failure(arid(2)).into();
+        ensure!(bytes(&oe) == bytes(&pe), "with_optional_error(None) changed the response", "");
     }
     op("Response::try_from (malformed)");
     let the = env.assertions()[0].clone();
